@@ -28,12 +28,57 @@ def run(ctx):
     games += posgen.all_moves_games(model, posgen.filter_valid(model, posgen.combo_positions(ctx.rng, 40 if q else 400)))
     ctx.notes['king_ray_template_positions'] = len(pins)
     nobs, nviol = diff_games(ctx, "g_legal", games, "legal move list differs from the rules", impl, model)
+    # the same through the real entry point: `position fen F` + `perft 1` on the engine binary (what a user sees), and the search
+    # root / SAN consumers are covered by C05 / C17
+    import uciglue
+    exe = engine_binary("plain")
+    sel = ctx.rng.sample(fens, min(len(fens), 250 if q else 4000)) + pins[: (150 if q else 2000)]
+    rc, lg, err = run_lines(model, ["legal " + f for f in sel], shards=NPROC)
+    obs = uciglue.observe(exe, [("fen", f, []) for f in sel], want=("perft",))
+    nu = 0
+    for f, l, o in zip(sel, lg, obs):
+        exp = sorted((l or "0").split()[1:])
+        got = sorted(m for m, c in o["perft"].items() for _ in range(c))
+        nu += 1
+        if exp and (got != exp or o["nodes"] != len(exp)):
+            nviol += 1
+            if nviol <= 5:
+                ctx.violation("UCI level: 'position fen %s' + 'perft 1' lists [%s] (%s nodes), the rules give [%s]" % (f, " ".join(got), o["nodes"], " ".join(exp)),
+                              {"session": ["position fen " + f, "perft 1"], "engine": got, "rules": exp, "raw": o["raw"]}, key="c01:uci:" + f)
+    ctx.cov["evaluations"] = ctx.cov.get("evaluations", 0) + nu
+    ctx.notes["uci_level_perft1_positions"] = nu
+    # stateful sessions: the move list shown by perft 1 after sequences of related position / moves / ucinewgame commands must be the
+    # legal moves of the position the commands describe (move text goes through Position::parse_uci)
+    gpool = [g for g in games if len(g[1]) >= 4][: (300 if q else 3000)]
+    sessions = uciglue.gen_sessions(ctx.rng, gpool, 60 if q else 1200)
+    exp = uciglue.expected_fens(model, run_lines, sessions, shards=NPROC)
+    got = uciglue.run_sessions(exe, sessions, extras=("perft 1",))
+    allexp = sorted(set(e for ex_ in exp for e in ex_ if e))
+    rc, lg2, err = run_lines(model, ["legal " + e for e in allexp], shards=NPROC)
+    legal_of = {e: sorted((l or "0").split()[1:]) for e, l in zip(allexp, lg2)}
+    ns = 0
+    for sess, ex_, gt in zip(sessions, exp, got):
+        for i, ((cmd, st), e, o) in enumerate(zip(sess, ex_, gt)):
+            if e is None:
+                break
+            ns += 1
+            gotm = sorted(m for m, c in o["perft"].items() for _ in range(c))
+            if legal_of[e] and gotm != legal_of[e]:
+                nviol += 1
+                if nviol <= 8:
+                    ctx.violation("UCI session: after [%s] perft 1 lists [%s], the legal moves of the position described are [%s]"
+                                  % (" ; ".join(c[:140] for c, _ in sess[: i + 1]), " ".join(gotm), " ".join(legal_of[e])),
+                                  {"session": [c for c, _ in sess[: i + 1]] + ["perft 1"], "engine": gotm, "rules": legal_of[e], "expected_position": e},
+                                  key="c01:sess:" + " ; ".join(c for c, _ in sess[: i + 1])[:300])
+                break
+    ctx.cov["evaluations"] += ns
+    ctx.notes["uci_session_perft_checked"] = ns
     styles = {}
     ctx.cov["rule"] = ("positions: %d constructed placements (templates: pins, en passant next to kings/sliders, castling, promotions, "
                        "many queens; filtered by the extracted valid_position) + positions of tests and known defect replays, each followed "
                        "lock-step along a random legal continuation; %d random legal games (model-driven, biased to captures/checks/castling/"
                        "promotions/double pushes).  Every position: engine generate_moves() as a sorted multiset of UCI strings must equal the "
-                       "extracted legal_moves (duplicates change the count).  distinct = distinct observation strings." % (len(fens), len(starts)))
+                       "extracted legal_moves (duplicates change the count); a sample again through the real binary (position fen + perft 1).  distinct = distinct observation strings." % (len(fens), len(starts)))
     if not ok and nviol == 0:
         ctx.violation("Coq obligations for C01 no longer check (%s); no position with a wrong move list found" % ", ".join(failed),
                       {"theorem_files": failed, "coq_output": out[-3000:]}, no_input=True)
